@@ -1,8 +1,19 @@
 #!/bin/bash
-# tools/covreport.sh <dir with cov-*.profraw> [exe] : line/branch coverage of /repo/liblouis/*.c by the runs that wrote the profiles
-d="$1"; exe="${2:-$(ls -t /verif/build/lib-asan-*/h_trans-* | head -1)}"
+# tools/covreport.sh <dir with cov-*.profraw> : coverage of /repo/liblouis/*.c by the runs that wrote the profiles
+#   (VERIF_COV=<dir> ./check Cxx ...).  Prints the per-file summary and the functions below 75 % region coverage;
+#   the annotated source goes to <dir>/show.txt.  A diagnostic for the generators, not part of any check.
+d="$1"
 llvm-profdata merge -sparse "$d"/cov-*.profraw -o "$d/all.profdata" || exit 1
-objs=""; for e in $(dirname "$exe")/h_*; do case "$e" in *.tmp) ;; *) objs="$objs -object $e";; esac; done
-llvm-cov report $objs -instr-profile="$d/all.profdata" /repo/liblouis/*.c 2>/dev/null | cut -c1-200
-llvm-cov show $objs -instr-profile="$d/all.profdata" /repo/liblouis/*.c -show-line-counts-or-regions 2>/dev/null > "$d/show.txt"
+b=""
+for x in $(ls -td /verif/build/lib-asan-*); do
+  if objdump -h "$x/utils.o" 2>/dev/null | grep -q llvm_prf; then b="$x"; break; fi
+done
+[ -n "$b" ] || { echo "no instrumented build found"; exit 1; }
+set -- "$b"/h_*; first="$1"; shift; objs=""; for e in "$@"; do objs="$objs -object $e"; done
+llvm-cov report "$first" $objs -instr-profile="$d/all.profdata" 2>/dev/null | grep "repo/liblouis/.*\.c\|^TOTAL" \
+  | awk '{print $1, "regions", $4, "functions", $7, "lines", $10, "branches", $13}'
+echo "--- functions below 75 % of their regions"
+llvm-cov report "$first" $objs -instr-profile="$d/all.profdata" -show-functions /repo/liblouis/*.c 2>/dev/null \
+  | awk 'NF>=10 && $1!="TOTAL" && $1!="Name" {r=$4; sub("%","",r); if (r+0<75) print "  " $1, "regions=" $2, "covered=" $4, "lines=" $7}'
+llvm-cov show "$first" $objs -instr-profile="$d/all.profdata" /repo/liblouis/*.c 2>/dev/null > "$d/show.txt"
 echo "annotated source: $d/show.txt"
